@@ -16,54 +16,63 @@ from vf import par
 NEEDS_SERVICES = True
 J = ops.job_spec
 N2 = 2          # jobs reserved by the open update
-START2 = 4      # absolute id of its first job: update 1 has jobs 1, 2 (committed); update 2 reserved id 3 but was abandoned
-UPD = 3         # the open update
+# variant 'later': update 1 has jobs 1, 2 (committed); update 2 reserved id 3 but was abandoned; update 3 (ids 4-5) is open
+# variant 'first': a fresh batch whose FIRST update (ids 1-2) is open (commit_batch_update recomputes nothing for update 1,
+#                  so what _create_jobs stores is final)
+VARIANTS = {'later': {'start': 4, 'upd': 3, 'existing': (1, 2)}, 'first': {'start': 1, 'upd': 1, 'existing': ()}}
 
 _W = None
-_BASE = None
+_BASE = {}
 
 
-def world():
-    global _W, _BASE
+def world(variant):
+    global _W
     if _W is None:
         _W = ops.BatchWorld(instances=(('i1', 'standard', 'active'),))
+        pristine = _W.snapshot()
         A = lambda l: ops.apply(_W, l)
         A(('new_batch', 'u1', 't1', 2, 0))
-        A(('new_update', 'u1', 't1', 2, 0))
+        A(('new_update', 'u1', 't1', N2, 0))
+        _BASE['first'] = _W.snapshot()
         A(('add_jobs', 'u1', 1, [J(1, abs_group=0), J(2, abs_group=0)]))
         A(('commit_tail', 'u1', 1))
         A(('new_update', 'u1', 't2', 1, 0))   # abandoned: its reserved job id 3 is never filled
         A(('new_update', 'u1', 't3', N2, 0))
-        _BASE = _W.snapshot()
-    return _W, _BASE
+        _BASE['later'] = _W.snapshot()
+    return _W, _BASE[variant]
 
 
 def requests(tier):
-    """(ids, [(in_update_parents, absolute_parents), ...])"""
-    inup = [(), (1,), (2,), (3,)] + ([(1, 2)] if tier != 'quick' else [])
-    absp = [(), (1,), (3,), (4,), (5,), (9,)] + ([(2, 4)] if tier != 'quick' else [])
+    """(variant, ids, [(in_update_parents, absolute_parents), ...])"""
     out = []
-    for first in (1, 2):  # in-update id of the first spec (validator demands contiguous ids)
-        ids = (first, first + 1)
-        for p1 in itertools.product(inup, absp):
-            for p2 in itertools.product(inup, absp):
-                out.append((ids, (p1, p2)))
-    # single-spec bunches (the other job of the update arrives in a second, well-formed bunch)
-    for jid in (1, 2, 3):
-        for p in itertools.product(inup, absp):
-            out.append(((jid,), (p,)))
+    for variant in ('later', 'first'):
+        inup = [(), (1,), (2,), (3,)] + ([(1, 2)] if tier != 'quick' else [])
+        if variant == 'later':
+            absp = [(), (1,), (3,), (4,), (5,), (9,), (1, 1)] + ([(2, 4)] if tier != 'quick' else [])
+        else:
+            absp = [(), (1,), (2,), (3,), (9,), (1, 1)]
+        for first in (1, 2):  # in-update id of the first spec (validator demands contiguous ids)
+            ids = (first, first + 1)
+            for p1 in itertools.product(inup, absp):
+                for p2 in itertools.product(inup, absp):
+                    out.append((variant, ids, (p1, p2)))
+        # single-spec bunches (the other job of the update arrives in a second, well-formed bunch)
+        for jid in (1, 2, 3):
+            for p in itertools.product(inup, absp):
+                out.append((variant, (jid,), (p,)))
     return out
 
 
-def classify(ids, parents):
+def classify(variant, ids, parents):
     """Reference well-formedness from the statement.  Returns list of defect classes (empty = well-formed)."""
+    V = VARIANTS[variant]
+    start, existing = V['start'], V['existing']
     bad = []
     for jid, (inup, absp) in zip(ids, parents):
-        a = START2 + jid - 1
+        a = start + jid - 1
         if not (1 <= jid <= N2):
             bad.append('job-id-outside-range')
         for p in inup:
-            pa = START2 + p - 1
             if p == jid:
                 bad.append('self-parent')
             elif p > jid:
@@ -73,14 +82,14 @@ def classify(ids, parents):
         for p in absp:
             if p == a:
                 bad.append('self-parent')
-            elif p in (1, 2):
+            elif p in existing:
                 pass
-            elif START2 <= p < START2 + N2:
+            elif start <= p < start + N2:
                 if p > a:
                     bad.append('later-parent')
             else:
-                bad.append('missing-parent')   # 3 = reserved by the abandoned update, 9 = beyond every range
-        named = [START2 + p - 1 for p in inup] + list(absp)
+                bad.append('missing-parent')   # reserved by the abandoned update, or beyond every range
+        named = [start + p - 1 for p in inup] + list(absp)
         if len(set(named)) != len(named):
             bad.append('duplicate-parent')
     return sorted(set(bad))
@@ -99,18 +108,21 @@ def drive(w):
 
 
 def evaluate(req):
-    ids, parents = req
-    w, base = world()
+    variant, ids, parents = req
+    UPD = VARIANTS[variant]['upd']
+    w, base = world(variant)
     w.restore(base)
     dump0 = w.mdb.store.dump(drop=bf.DROP)
     specs = [J(jid, parents=list(ip), abs_parents=list(ap), abs_group=0) for jid, (ip, ap) in zip(ids, parents)]
-    classes = classify(ids, parents)
+    classes = classify(variant, ids, parents)
     obs = ops.apply(w, ('add_jobs', 'u1', UPD, specs))
     accepted = obs.get('status') == 200
     res = {'req': req, 'classes': classes, 'accepted': accepted, 'viol': None}
-    if classes == ['duplicate-parent']:
-        # naming the same dependency twice is not one of the malformations the statement lists: only demand no side effects
-        if not accepted and w.mdb.store.dump(drop=bf.DROP) != dump0:
+    dup_only = classes == ['duplicate-parent']
+    if dup_only and not accepted:
+        # naming the same existing dependency twice is not one of the malformations the statement lists, so a refusal is not
+        # demanded - but a refusal must leave the batch unchanged, and an acceptance must leave the batch able to finish (below)
+        if w.mdb.store.dump(drop=bf.DROP) != dump0:
             res['viol'] = ('refused-submission-changed-store', f'submission {describe(req)} was refused ({obs}) but the database changed')
         return res
     classes = [c for c in classes if c != 'duplicate-parent']
@@ -138,14 +150,15 @@ def evaluate(req):
     b = w.table('batches')[0]
     states = [(j['job_id'], j['state']) for j in w.table('jobs')]
     if b['state'] != 'complete' or any(s not in bf.TERMINAL for _, s in states):
-        res['viol'] = ('committed-batch-cannot-finish', f'{describe(req)}: after driving every job, batch state={b["state"]} jobs={states}')
+        res['viol'] = ('committed-batch-cannot-finish' + (':duplicate-parent' if dup_only else ''),
+                       f'{describe(req)}: accepted and committed, but after driving every job batch state={b["state"]} jobs={states}')
     res['finished'] = True
     return res
 
 
 def describe(req):
-    ids, parents = req
-    return '[' + '; '.join(f'job {jid}: in_update_parent_ids={list(ip)} absolute_parent_ids={list(ap)}' for jid, (ip, ap) in zip(ids, parents)) + ']'
+    variant, ids, parents = req
+    return f'({variant} update) [' + '; '.join(f'job {jid}: in_update_parent_ids={list(ip)} absolute_parent_ids={list(ap)}' for jid, (ip, ap) in zip(ids, parents)) + ']'
 
 
 def _eval_chunk(chunk):
@@ -157,7 +170,7 @@ def check(tier, seed, procs):
     n = max(1, min(len(reqs), procs * 4))
     chunks = [reqs[i::n] for i in range(n)]
     rows = [r for c in par.pmap(_eval_chunk, chunks, procs, chunksize=1) for r in c]
-    rows.sort(key=lambda r: (len(r['req'][0]), repr(r['req'])))
+    rows.sort(key=lambda r: (len(r['req'][1]), repr(r['req'])))
     viol = []
     for r in rows:
         if r['viol']:
@@ -174,13 +187,14 @@ def check(tier, seed, procs):
         'well_formed_driven_to_completion': sum(1 for r in rows if r.get('finished')),
         'ill_formed_by_class': {c: sum(1 for r in rows if c in r['classes']) for c in
                                 ('self-parent', 'later-parent', 'missing-parent', 'job-id-outside-range')},
-        'bounds': 'batch with update 1 (jobs 1,2) committed, update 2 (reserved job 3) abandoned, update 3 (2 reserved jobs, ids 4-5) open',
+        'bounds': 'two situations: (later) update 1 (jobs 1,2) committed, update 2 (reserved job 3) abandoned, update 3 (2 reserved jobs, ids 4-5) open; (first) fresh batch whose first update (ids 1-2) is open; duplicate naming of a parent included',
+        'duplicate_parent_submissions_accepted_and_finished': sum(1 for r in rows if r.get('finished') and 'duplicate-parent' in classify(*r['req'])),
     }
     return {'coverage': cov, 'violations': viol, 'assumptions': bf.ASSUME, 'level': 'model_checking',
             'vacuous': None if ill > 10 and cov['well_formed_driven_to_completion'] > 10 else 'too few cases'}
 
 
 def replay(obj):
-    ids, parents = obj['req']
-    r = evaluate((tuple(ids), tuple((tuple(a), tuple(b)) for a, b in parents)))
+    variant, ids, parents = obj['req'] if len(obj['req']) == 3 else ['later'] + list(obj['req'])
+    r = evaluate((variant, tuple(ids), tuple((tuple(a), tuple(b)) for a, b in parents)))
     return r['viol'] is None, (r['viol'][1] if r['viol'] else 'no violation')
